@@ -177,7 +177,9 @@ struct RGen { std::mt19937_64 rng; uint64_t R(uint64_t n) { return rng() % n; }
             case 'f': { uint32_t u; do { u = (uint32_t)rng(); } while ((u & 0x7f800000u) == 0x7f800000u); if (R(4) == 0) { static const float s[] = {0.f, 1.f, -1.5f, 0.1f, 3.4028235e38f, 1.4e-45f, 1e10f, -0.f}; float f = s[R(8)]; memcpy(&u, &f, 4); } w.limbs32(u); break; }
             case 'd': { uint64_t u; do { u = rng(); } while ((u & 0x7ff0000000000000ull) == 0x7ff0000000000000ull); if (R(4) == 0) { static const double s[] = {0., 1., -1.5, 0.1, 1.7976931348623157e308, 4.9e-324, 1e10, 0.81}; double d = s[R(8)]; memcpy(&u, &d, 8); } w.limbs64(u); break; }
             case 'h': { static const uint64_t b[] = {0, 1, ~0ull, 0x7fffffffffffffffull, 0x8000000000000000ull, 0xfffffffffull}; w.limbs64(R(3) ? rng() : b[R(6)]); break; }
-            case 't': { uint64_t secs = 946684800ull + 2208988800ull + R(900000000); uint64_t t = R(4) == 0 ? 1 : (secs << 32) | (R(2) ? 0 : ((uint64_t)(R(1 << 20)) << 12)); w.limbs64(t); break; }
+            case 't': { uint64_t secs = 946684800ull + 2208988800ull + R(900000000);
+                          // a third of the tags sit on the boundaries of the printed form: midnight, the first minute of a day, full minutes, full hours, the last second
+                          if (R(3) == 0) { uint64_t day = secs - secs % 86400; static const unsigned tod[] = {0, 1, 7, 59, 60, 61, 3599, 3600, 3601, 43200, 86340, 86399}; secs = day + (R(4) ? tod[R(12)] : 60 * R(1440)); } uint64_t t = R(4) == 0 ? 1 : (secs << 32) | (R(2) ? 0 : ((uint64_t)(R(1 << 20)) << 12)); w.limbs64(t); break; }
             case 's': case 'S': { w.arr(); unsigned n = (unsigned)(R(6) == 0 ? 30 + R(60) : R(8)); for (unsigned i = 0; i < n; ++i) { unsigned c = R(8) == 0 ? (unsigned)"\n\t\\'\"%\a\b\v\f\r"[R(11)] : 32 + (unsigned)R(95); w.num(c); } w.end_arr(); break; }
             case 'b': { w.arr(); unsigned n = (unsigned)(R(6) == 0 ? 20 + R(30) : R(6)); for (unsigned i = 0; i < n; ++i) w.num(R(256)); w.end_arr(); break; }
             case 'm': w.arr().num(R(256)).num(R(256)).num(R(256)).num(R(256)).end_arr(); break;
